@@ -1,5 +1,5 @@
 (** C15: sx interface (decoders, run, monitor, judge). *)
-From BBS Require Import Common.Sx Buffer.Algebra.
+From BBS Require Import Common.Sx Buffer.Algebra Buffer.Mux.
 
 (** ---- M2: decorator programs ---- *)
 
@@ -152,14 +152,52 @@ Definition mon15_prog (inp obs : sx) : list Z :=
                         && failing_task_before ops (fst (fst z))) zs
    then [6] else []).
 
+(** ---- M1: schedules of n consumers ---- *)
+
+Definition dec_cprog (s : sx) : nat * bool * N :=
+  (sx_nat (sx_nth s 0), sx_bool (sx_nth s 1), sx_N (sx_nth s 2)).
+
+Definition run15_mux (inp : sx) : sx :=
+  let nch := sx_nat (sx_nth inp 1) in
+  let term := sx_Z (sx_nth inp 2) in
+  let progs := map dec_cprog (sx_list (sx_nth inp 3)) in
+  let s1 := run_skip nch term (init progs) (sx_nats (sx_nth inp 4)) in
+  (* drain: round robin; every round lets at least one consumer step *)
+  let s2 := run_skip nch term s1 (concat (repeat (seq 0 (length progs)) (rank s1))) in
+  L (of_nat (closed s2) :: of_bool (all_done s2 && negb (panicked s2)) :: map (fun c => of_Zs (got c)) (cs s2)).
+
+(** what the interface promises consumer i: the first [reads] results of the
+    underlying reader, in order *)
+Definition spec_seq (nch : nat) (term : Z) (p : nat * bool * N) : list Z :=
+  let '(r, d, _) := p in if d then [] else items nch term r.
+
+Definition mon15_mux (inp obs : sx) : list Z :=
+  let nch := sx_nat (sx_nth inp 1) in
+  let term := sx_Z (sx_nth inp 2) in
+  let progs := map dec_cprog (sx_list (sx_nth inp 3)) in
+  let terminated := sx_bool (sx_nth obs 1) in
+  let gots := map sx_Zs (skipn 2 (sx_list obs)) in
+  (* 11: panic in a consumer *)
+  (if existsb (fun g => existsb (Z.eqb (-100)) g) gots then [11] else []) ++
+  (* 12: some consumer never finished *)
+  (if negb terminated then [12] else []) ++
+  (* 13: source not closed exactly once after everybody finished *)
+  (if terminated && negb (Z.eqb (sx_Z (sx_nth obs 0)) 1) then [13] else []) ++
+  (* 15: a consumer saw something else than the source produced *)
+  (if terminated && negb (existsb (fun g => existsb (Z.eqb (-100)) g) gots) &&
+      negb (sx_eqb (L (map of_Zs gots)) (L (map (fun p => of_Zs (spec_seq nch term p)) progs)))
+   then [15] else []).
+
 Definition run15 (inp : sx) : sx :=
   match sx_nth inp 0 with
   | A 1 => run15_prog inp
+  | A 2 => run15_mux inp
   | _ => L []
   end.
 Definition mon15 (inp obs : sx) : list Z :=
   match sx_nth inp 0 with
   | A 1 => mon15_prog inp obs
+  | A 2 => mon15_mux inp obs
   | _ => []
   end.
 
